@@ -70,6 +70,9 @@ def ev_call(eng, node, st, k, ctx):
         if key in R.CONTRACTS:
             return ev_args(eng, node, st, lambda s1, a, kw: eng.call_contract(s1, key, a, kw, node, k, ctx), ctx)
         alias = R.IMPORT_ALIASES.get((mod, f.id))
+        if alias is None and eng.sources is not None:
+            eng.sources.module(mod)
+            alias = eng.sources.imports.get(mod, {}).get(f.id)
         if alias and alias in R.CONTRACTS:
             return ev_args(eng, node, st, lambda s1, a, kw: eng.call_contract(s1, alias, a, kw, node, k, ctx), ctx)
         if alias and alias in R.EXTERNALS:
@@ -118,6 +121,8 @@ def method_call(eng, st, recv, meth, args, kwargs, node, k, ctx):
         if h is None:
             raise Unsupported(f"opaque method {recv.s[1]}.{meth}")
         return h(eng, st, node, [recv] + args, kwargs, k, ctx)
+    if recv.s == ("exc",):
+        return k(st, VNONE)     # methods of a caught exception object (attach_mol ...) only decorate the exception
     if recv.s == NONE:
         return eng.throw(st, "AttributeError", node, ctx)
     if recv.s[0] == "opt":
